@@ -353,7 +353,7 @@ fn c16_execution_step_resets_everything() {
     }
 }
 
-//@ props=C16,C17 tier=quick fns=src/rt/lazy_static.rs::Set::reset,src/rt/lazy_static.rs::Set::drop,src/rt/lazy_static.rs::Set::new expect_panic=lazy_static_was_not_dropped_during_execution
+//@ props=C16,C17 tier=quick fns=src/rt/lazy_static.rs::Set::reset,src/rt/lazy_static.rs::Set::drop,src/rt/lazy_static.rs::Set::new expect_panic=was_not_dropped_during_execution
 #[kani::proof]
 #[kani::unwind(8)]
 #[kani::stub(std::hash::RandomState::new, crate::rt::thread::verif_kani::fixed_random_state)]
